@@ -229,7 +229,7 @@ def rule_frame_stamped(res, rid, m):
                 # `++counter; stamp(counter)`: the single increment lies between the push and the stamp in the same block
                 bi, bs2 = cfg.block_for(incs[0]), cfg.block_for(s)
                 arg_ok = bi == bs2 == cfg.block_for(pb) and cfg.pos_of[pb["id"]] < cfg.pos_of[incs[0]["id"]] < cfg.pos_of[s["id"]]
-            on_frame = m.frames in d_obj and any(x.endswith("::back") for x in c_obj)
+            on_frame = m.frames in d_obj and any(x.endswith(("::back", "::emplace_back", "::operator[]", "::data")) for x in c_obj)
             bp, bs = cfg.block_for(pb), cfg.block_for(s)
             after = (bp == bs and cfg.pos_of.get(s["id"], 0) > cfg.pos_of.get(pb["id"], 0)) or (bp != bs and bs in cfg.postdominators().get(bp, set()))
             if arg_ok and on_frame and after:
@@ -487,10 +487,12 @@ def rule_fit_decided_on_fresh_frame(res, rid, m):
         if const_value(v) == 0:
             continue
         n += 1
+        v_orig = v
+        v = facts.expand(f, v)
         # position of the evaluated test and of the opener call on the path
         els = [x["id"] for _, x in p.elems()]
         opens = [x for _, x in p.elems() if x.get("k") == "call" and m.fb.resolve_call(x) is not None and m.may_open(m.fb.resolve_call(x))]
-        vids = [x["id"] for x in walk(v) if x["id"] in els]
+        vids = [x["id"] for x in walk(v_orig) if x["id"] in els]
         okpos = bool(opens) and bool(vids) and els.index(opens[-1]["id"]) < min(els.index(i) for i in vids)
         if not okpos:
             # no open on this path: acceptable when the path has established that the current frame is still empty
